@@ -102,7 +102,9 @@ class WSession:
                 sess.disc[idx] += 1
 
             def write(self, statement):
-                chunks.append(bytes(statement))
+                # keeps the very object it is handed, as a queueing writer would (added after seed C14j: one reused mutable
+                # buffer passed to every writer); what it holds is read later
+                chunks.append(statement)
 
             def flush(self):
                 pass
@@ -124,7 +126,7 @@ class WSession:
             elif k in ("text", "console_t"):
                 out.append(list(b.getvalue().encode("utf-8")))
             else:
-                out.append(list(b"".join(b)))
+                out.append(list(b"".join(bytes(x) for x in b)))
         return out
 
     def nreg(self):
